@@ -12,7 +12,11 @@ impl AppCounters {
     pub(crate) fn from_update_interval(update: i64) -> Self {
         AppCounters {
             df_count: BTreeMap::new(),
-            timestamp: chrono::Utc::now() + chrono::Duration::seconds(update),
+            // `Duration::seconds` and `DateTime + Duration` panic when out of range (huge --update):
+            // fall back to "now" instead
+            timestamp: chrono::Duration::try_seconds(update)
+                .and_then(|d| chrono::Utc::now().checked_add_signed(d))
+                .unwrap_or_else(chrono::Utc::now),
             cleanup_count: 0u32,
         }
     }
